@@ -1212,4 +1212,26 @@ def r79m(F):
 
 from . import c11 as _c11
 
-RULES = [r14, r14v, r15, r15p, r16, r16m, r17, r17b, r79, r79t, r79m, c02.r8, _c11.r72]
+
+def r14w(F):
+    r = RuleResult("R14w", "the rewritten file holds the formatted text and nothing else",
+                   "`ucg fmt -w` / a directory run replaces the file by what the printer wrote: the file is opened truncating "
+                   "(File::create, or OpenOptions with truncate(true)); opened any other way a formatted text that is shorter than "
+                   "the original keeps the tail of the old text behind it", floor=1)
+    from . import c14 as _c14
+    from .. import flatten
+    name = "ucg::fmt_file"
+    need(name in F.fns, "ucg::fmt_file not found")
+    fn = F.fn(name, flat=True)
+    sites = []
+    for b, t in fn.calls():
+        c = callee(t)
+        if c in _c14.CREATORS and c != "std::fs::File::options":
+            sites.append(b)
+    need(sites, "fmt_file creates no file (the -w path is not recognised)")
+    for k, b in enumerate(sites):
+        ok, why = _c14.opens_truncating(fn, b, "the file being formatted", "a formatted text shorter than the original")
+        r.inst("fmt_file:open#%d" % k, fn.where(b), ok, why)
+    return r
+
+RULES = [r14, r14v, r15, r15p, r16, r16m, r17, r17b, r79, r79t, r79m, r14w, c02.r8, _c11.r72]
